@@ -127,7 +127,19 @@ func buildNode(obj slip.Object, p *slip.Printer) (node Node) {
 		}
 		node = arrayFromList(prefix, to.AsList(), p)
 	case slip.Funky:
-		node = buildCall(slip.Symbol(to.GetName()), to.GetArgs(), p)
+		if name := to.GetName(); 0 < len(name) {
+			node = buildCall(slip.Symbol(name), to.GetArgs(), p)
+			break
+		}
+		// A call without a name, ((lambda (x) ...) 1): the function
+		// position is a lambda expression, the load form has it.
+		if lf, ok := obj.(slip.LoadFormer); ok {
+			if form, _ := lf.LoadForm().(slip.List); 0 < len(form) {
+				node = newList(form, p, false)
+				break
+			}
+		}
+		node = &Leaf{text: p.Append(nil, obj, 0)}
 	case slip.Symbol:
 		node = &Leaf{text: to.Readably(nil, p)}
 	case slip.LoadFormer:
